@@ -521,6 +521,23 @@ theorem C17_tuple_rest_element (fuel : Nat) (st : St) (as aas : List String) (el
     inferRuntime (fuel + 1) st (.mk (.other "TsRestType") as [.mk .tsArray aas [elem]]) = inferRuntime fuel st elem := by
   simp [inferRuntime, enterRes_ok _ _ hg]
 
+/-- An indexed access NEVER yields the empty type list (which would make Vue reject every value): when the access cannot be
+    followed the prop gets no runtime check (fix 5ac209a). -/
+theorem C17_indexed_access_never_empty (fuel : Nat) (st : St) (as : List String) (objT idxT : Node) (hg : st.typeGaveUp = false) :
+    (inferRuntime (fuel + 1) st (.mk .tsIndexed as [objT, idxT])).1 ≠ [] := by
+  simp only [inferRuntime, enterRes_ok _ _ hg]
+  rcases h : resolveIndexed fuel st objT idxT with ⟨r, st'⟩
+  cases r with
+  | none => simp
+  | some t =>
+    simp only
+    split
+    · simp
+    · rename_i hne
+      intro h2
+      rw [h2] at hne
+      simp at hne
+
 /-- non-vacuity: the hypotheses of `C17_soundness` are met by a nested type and an initial state -/
 example : (Ty.optional (.union [.paren (.kw "string"), .nonNull (.union [.cls "Date", .kw "null"])])).wf = true
     ∧ (Ty.optional (.union [.paren (.kw "string"), .nonNull (.union [.cls "Date", .kw "null"])])).depth ≤ FUEL := by
